@@ -61,6 +61,13 @@ func gen(tier string) []proto.Item {
 						s := base(v, r.first, r.last, dest)
 						s.Hops = map[int]proto.HopSpec{pos.ttl: {Form: form, From: resp.addr, AtTarget: resp.name == "target"}}
 						items = append(items, proto.Item{Scn: s, Class: fmt.Sprintf("%s/%s/%s/%s/from-%s/alone", v, rtag, pos.name, form, resp.name)})
+						if vi.Kind == "tcp" || vi.Kind == "tcpparis" || vi.Kind == "sack" {
+							// the capture filter is "purely a performance optimization" (a no-op on some platforms): the matcher
+							// must be right on its own, so the same item also runs with filtering off
+							s2 := s
+							s2.FiltersOff = true
+							items = append(items, proto.Item{Scn: s2, Class: fmt.Sprintf("%s/%s/%s/%s/from-%s/alone/filters-off", v, rtag, pos.name, form, resp.name)})
+						}
 						// together with the position's ordinary reply, before and after it
 						for _, order := range []string{"first", "second"} {
 							s := base(v, r.first, r.last, dest)
